@@ -34,6 +34,7 @@ extern "C" __attribute__((used)) const char *__tsan_default_options() {
 }
 
 extern "C" long fine_pairs(void);
+extern "C" ssize_t __real_write(int, const void *, size_t);
 namespace sim {
 void canary_plans(const std::string &prop, std::vector<std::pair<std::string, std::pair<Plan, std::string>>> &out);
 }
@@ -47,7 +48,7 @@ bool g_replay_mode = false;  // death callback exits 1 (violation reproduced)
 __attribute__((unused)) void death_cb() {
   char b[256];
   int n = snprintf(b, sizeof b, "D %ld %d %d %s\n", (long)g_cur_run, (int)g_cur_task, (int)g_cur_op, g_cur_op_kind);
-  if (write(g_report_fd, b, (size_t)n) < 0) {}
+  if (__real_write(g_report_fd, b, (size_t)n) < 0) {}  // not the simulated write(2): the process may die inside library code
   if (g_replay_mode) _exit(1);
 }
 
